@@ -92,3 +92,18 @@
   (ite (and (fp.lt x fp_zero) (fp.geq x ((_ to_fp 11 53) RNE (- 0.5)))) (_ -zero 11 53)
        (let ((f (fp.roundToIntegral RTN x)))
          (ite (fp.geq (fp.sub RNE x f) ((_ to_fp 11 53) RNE 0.5)) (fp.roundToIntegral RTP x) f)))))
+; mod: "returns the remainder from a truncating division" (same as the % operator in Java/ECMAScript):
+; IEEE 754 fmod.  Kept abstract; Go's math.Mod is documented to compute exactly this function.
+(declare-fun ext$math.Mod (F64 F64) F64)
+(define-fun xp_mod ((a F64) (b F64)) F64 (ext$math.Mod a b))
+; 4.2 string functions (on byte strings; character-level functions string-length/substring/translate are
+; specified on characters and treated in the bounded stand-in)
+(define-fun xp_contains ((a String) (b String)) Bool (str.contains a b))
+(define-fun xp_starts_with ((a String) (b String)) Bool (str.prefixof b a))
+; substring-before: the substring of the first argument that precedes the first occurrence of the second
+; argument, or the empty string if the first does not contain the second
+(define-fun xp_substring_before ((a String) (b String)) String
+  (ite (str.contains a b) (str.substr a 0 (str.indexof a b 0)) ""))
+; substring-after: the substring that follows the first occurrence, or the empty string
+(define-fun xp_substring_after ((a String) (b String)) String
+  (ite (str.contains a b) (str.substr a (+ (str.indexof a b 0) (str.len b)) (str.len a)) ""))
